@@ -763,4 +763,29 @@ theorem mapSel_noSingle (sel : Bool → Bool) (f : String → String) (t : T) :
   obtain ⟨d, p, k⟩ := t
   simp [mapSel, T.noSingle, (mapSelL_ns sel f k).1]
 
+/- ## the data edits keep names and shape -/
+
+mutual
+theorem mapData_shape (fn : NodeD → NodeD) (fe : Bool → EdgeD → EdgeD) (hn : ∀ d, (fn d).name = d.name) : ∀ (t : T),
+    (mapData fn fe t).noSingleBelow = t.noSingleBelow ∧ (mapData fn fe t).leaves = t.leaves
+  | .node d p k => by
+    obtain ⟨h1, h2, h3⟩ := mapDataL_shape fn fe hn k
+    refine ⟨by simp only [mapData, noSingleBelow_node, h1, h3], ?_⟩
+    simp only [mapData, leaves_of_node, hn, h2]
+    cases k <;> simp [mapDataL]
+theorem mapDataL_shape (fn : NodeD → NodeD) (fe : Bool → EdgeD → EdgeD) (hn : ∀ d, (fn d).name = d.name) : ∀ (k : Kids),
+    noSingleL (mapDataL fn fe k) = noSingleL k ∧ leavesL (mapDataL fn fe k) = leavesL k ∧ (mapDataL fn fe k).length = k.length
+  | [] => by simp [mapDataL]
+  | (e, t) :: r => by
+    obtain ⟨h1, h2⟩ := mapData_shape fn fe hn t
+    obtain ⟨g1, g2, g3⟩ := mapDataL_shape fn fe hn r
+    simp [mapDataL, noSingleL, leavesL, h1, h2, g1, g2, g3]
+end
+
+theorem mapData_inv (fn : NodeD → NodeD) (fe : Bool → EdgeD → EdgeD) (hn : ∀ d, (fn d).name = d.name) (t : T) :
+    (mapData fn fe t).tipNames = t.tipNames ∧ (mapData fn fe t).noSingle = t.noSingle := by
+  obtain ⟨d, p, k⟩ := t
+  obtain ⟨g1, g2, g3⟩ := mapDataL_shape fn fe hn k
+  simp [mapData, T.tipNames, T.noSingle, T.name, hn, g1, g2, g3]
+
 end Gotree.C03
